@@ -25,10 +25,17 @@ structure C02Crypto where
 
 /-- `op.Provider`: what its verifier getters and the token readers read -/
 structure C02Provider where
-  accessTokenKeySet : KeySet := {}
-  idTokenHinKeySet : KeySet := {}
+  /-- (round 4) the zero value of an interface-typed field is nil: a `&Provider{..}` literal that does not name a key-set field
+      leaves it nil (`NewProvider` is regenerated in Generated/ProviderC02.lean) -/
+  accessTokenKeySet : KeySet := { kind := .nilSet }
+  idTokenHinKeySet : KeySet := { kind := .nilSet }
   accessTokenVerifierOpts : List C02VerifierOpt := []
   idTokenHintVerifierOpts : List C02VerifierOpt := []
+  /-- (round 4) what `NewProvider` is handed / computes besides: the storage (as far as `OpenIDKeySet` uses it), `insecure`
+      (set by `WithAllowInsecure`, read by the issuer function), the per-request issuer function (host ↦ issuer) -/
+  storage : C02KeyStorage := { keySet := .ok [] }
+  insecure : Bool := false
+  issuer : String → String := fun _ => ""
   crypto : C02Crypto := { Decrypt := fun _ => .error "cipher: message authentication failed" }
   /-- oracle: what `oidc.ParseToken` / go-jose see of a presented string -/
   tokenOf : String → Token := fun _ => { segs := 0, middle := none, jws := none }
